@@ -1039,9 +1039,27 @@ fn cases(entry: Entry) -> BoxedStrategy<Case> {
 			let seed = (small_spec(gen::all_pairs()), any::<u32>()).prop_map(|(spec, seed)| codec::tar::encode(&spec.materialise(), &vt::sources::layout_tar(seed)));
 			// archives built member by member: generated names (as for directories) and contents
 			let content = prop_oneof![3 => proptest::collection::vec(any::<u8>(), 0..40), 1 => json_text(), 1 => tilejson_text().prop_map(|t| util::gzip(&t))];
-			let members = (proptest::collection::vec((dir_names(), content), 0..8), any::<bool>(), any::<bool>()).prop_map(move |(files, dot, dirs)| {
+			let members = (proptest::collection::vec((dir_names(), content), 0..8), any::<bool>(), any::<bool>(), proptest::option::weighted(0.3, (any::<u8>(), 0usize..4))).prop_map(move |(files, dot, dirs, lie)| {
 				let m: Vec<(String, Vec<u8>)> = files.into_iter().map(|(n, c)| (if dot { format!("./{n}") } else { n }, c)).collect();
-				Case { entry, data: vt::server::tar_archive(&m, dirs), files: vec![], origin: "tar-members".into() }
+				let dirs = dirs && lie.is_none();
+				let mut data = vt::server::tar_archive(&m, dirs);
+				let mut origin = "tar-members";
+				// one member header announces far more data than the archive holds (valid checksum)
+				if let (Some((which, size)), false) = (lie, m.is_empty()) {
+					let k = which as usize % m.len();
+					let off: usize = m[..k].iter().map(|(_, d)| 512 + d.len().div_ceil(512) * 512).sum();
+					if off + 512 <= data.len() {
+						let announced = [0o7777777777u64, 0o77777777777, 0o1000000000, 0o17777777777][size];
+						data[off + 124..off + 136].copy_from_slice(format!("{announced:011o}\0").as_bytes());
+						for b in &mut data[off + 148..off + 156] {
+							*b = b' ';
+						}
+						let sum: u64 = data[off..off + 512].iter().map(|b| *b as u64).sum();
+						data[off + 148..off + 156].copy_from_slice(format!("{sum:06o}\0 ").as_bytes());
+						origin = "tar-members-with-a-size-beyond-the-archive";
+					}
+				}
+				Case { entry, data, files: vec![], origin: origin.into() }
 			});
 			prop_oneof![10 => text_case(seed.boxed(), "tar"), 3 => members.boxed(), 1 => random].boxed()
 		}
